@@ -181,47 +181,24 @@ Definition first_code (cs : list cres) : Z :=
   end%Z.
 Definition is_okc (cs : list cres) : bool := match cs with COk _ _ _ :: _ => true | _ => false end.
 
-(* ---- the >= 2 GiB witnesses of the negative-size finding ----
+(* ---- the >= 2 GiB witnesses of the (repaired, /repo 2c7f196) negative-size finding ----
    input (t head chunks with fin depth t2 2 tail): the bytes are head followed by [tail] zero bytes.
    The models are NOT evaluated on such inputs (a 2^31-element list); what they do there is
-   Properties/C08.v: C08_negative_string_accepted (template decoders accept a STRING length with
-   the sign bit set) and C08_negative_count_accepted (BufferReader accepts such container counts).
-   [big_expect] is that prediction: which of binary / bufferreader / peek / bytes accept, and
-   the extent.  The spec is the grammar's: a negative declared size must be rejected by all. *)
-Definition big_expect (ty : N) (head : bytes) (tail : N) : option (list bool * N) :=
-  match kind_of ty, head with
-  | KString, _ =>
-    if len head =? 4 then
-      let u := unbe head in
-      if (two31 <=? u) && (u <=? tail) then Some ([false; false; true; true], 4 + u) else None
-    else None
-  | KList, et :: cnt =>
-    if (len cnt =? 4) && is_fixed et then
-      let u := unbe cnt in
-      if (two31 <=? u) && (u * fixed_width et <=? tail) then Some ([false; true; false; false], 5 + u * fixed_width et)
-      else None
-    else None
-  | _, _ => None
-  end.
-Definition big_agree (acc : bool) (n : N) (i : list cres) : bool :=
-  match i with
-  | [COk n' e _] => acc && (n =? n') && e
-  | [CErr _] => negb acc
-  | _ => false
-  end.
+   Properties/C08.v C08_negative_string_rejected / C08_negative_count_rejected and, in general,
+   C08_rejects_malformed: a negative declared size that the parse reaches within [head] is
+   rejected by every skipper whatever follows.  So: model prediction = spec = "all reject". *)
 Definition is_errc (i : list cres) : bool := match i with [CErr _] => true | [CNot] => true | _ => false end.
 
 Definition check (c : cval) : verdict :=
   match c with
   | L [L [I t; bv; L _; I _; I _; I 0%Z; I _; I 2%Z; I tail]; L [o1; o2; o3; o4; o5]] =>
     let head := vbytes bv in
-    match big_expect (Z.to_N t) head (Z.to_N tail), dec_calls o1, dec_calls o2, dec_calls o3, dec_calls o4 with
-    | Some ([a1; a2; a3; a4], n), Some i1, Some i2, Some i3, Some i4 =>
-      let a := big_agree a1 n i1 && big_agree a2 n i2 && big_agree a3 n i3 && big_agree a4 n i4 in
-      let s := match gparse (Z.to_N t) head with Err e => (e =? E_NEGSIZE)%Z | _ => false end
-               && is_errc i1 && is_errc i2 && is_errc i3 && is_errc i4 in
-      mk a s 3000
-    | _, _, _, _, _ => bad_case
+    match dec_calls o1, dec_calls o2, dec_calls o3, dec_calls o4 with
+    | Some i1, Some i2, Some i3, Some i4 =>
+      let neg := match gparse (Z.to_N t) head with Err e => (e =? E_NEGSIZE)%Z | _ => false end in
+      let a := neg && is_errc i1 && is_errc i2 && is_errc i3 && is_errc i4 in
+      mk a a 3000
+    | _, _, _, _ => bad_case
     end
   | L [L [I t; bv; L chunks; I wd; I fin; I depth; I t2; I flags]; L [o1; o2; o3; o4; o5]] =>
     let b := vbytes bv in
